@@ -127,6 +127,14 @@ func (v *VMap) validate(prefix string, tv reflect.Value) *VMap {
 			fn(v.errBuf, validName, "", v.getKey(prefix, key), val)
 		}
 	}
+
+	// a key that has a required rule but is absent from the map is reported as well
+	for key, validNames := range v.ruleObj {
+		if key == "" || tv.MapIndex(reflect.ValueOf(key).Convert(tv.Type().Key())).IsValid() {
+			continue
+		}
+		v.errBuf.WriteString(missingRequiredErr(v.getKey(prefix, key), validNames))
+	}
 	return v
 }
 
